@@ -1260,6 +1260,17 @@ impl Handler {
                                             {
                                                 warn!(error = %e, "Failed to inform established outgoing connection")
                                             }
+                                            // The ENR request has been answered, it is no longer
+                                            // active nor expecting a response.
+                                            if self
+                                                .active_requests
+                                                .remove_request(&node_address, &response.id)
+                                                .is_some()
+                                            {
+                                                self.remove_expected_response(
+                                                    node_address.socket_addr,
+                                                );
+                                            }
                                             return;
                                         }
 
